@@ -169,17 +169,21 @@ def fixed_grid(ctx, cfg, d, field, u0s, t0, hs, open_loop):
     stepper = sm.ModelStepper(ctx, cfg, field, d, c02.lam_of(cfg, d), prior=prior)
     state0 = solver.init(jnp.asarray(t0), prior, damp=cfg.damp)
     ms = sm.state_slices(cfg, state0)
-    aux = (([Fraction(0)] * d if cfg.fact == "bd" else Fraction(0)), Fraction(0)) if cfg.solver.startswith("mle") else None
+    aux = c02.aux_of(cfg, state0) if cfg.solver.startswith("mle") else None
     t = F(t0)
-    traj = []
+    traj, amps = [], []
     try:
         for i in range(len(hs)):
             h = F(float(np.diff(grid)[i]))
             ms, aux, info = stepper.step(ms, t, h, aux)
+            amps.append(info.get("amp", 1.0))
             t = t + h
             traj.append(ms)
     except core.ModelError as e:
         ctx.skip("model refused grid run: " + e.ans[:60])
+        return
+    if amps and not max(amps) < 1e6:
+        ctx.skip("open-loop grid run: a calibration residual cancels to < 1e-6 of its summands")
         return
     if cfg.solver.startswith("mle"):
         r2 = aux[0]
@@ -276,8 +280,8 @@ def fixedpoint_vs_fixedinterval(ctx, cfg, d, field, u0s, t0, t1, tol):
             sv = np.array([Ca[i, i] + Cb[i, i] + (ma[i] * Fraction(1, 10**8)) ** 2 + Fraction(1, 10**60) for i in range(n)], dtype=object)
             dm = sm._dev_vec(mb, ma, np.abs(sm.tofloat(ma)) + np.sqrt(sm.tofloat(sv)) + 1e-6 * np.max(np.abs(sm.tofloat(ma)), initial=0.0))
             dc = sm._dev_cov(Cb, Ca, sv)
-            ctx.dev("fp-vs-fi.mean", dm, 1e-6, case=dict(case, checkpoint=tc), sig=f"fp-vs-fi:{cfg.fact}:{cfg.solver}:{cfg.lin}:mean", what=f"fixed-point checkpoint mean differs from fixed-interval off-grid marginal by {dm:.2e}")
-            ctx.dev("fp-vs-fi.cov", dc, 1e-5, case=dict(case, checkpoint=tc), sig=f"fp-vs-fi:{cfg.fact}:{cfg.solver}:{cfg.lin}:cov", what=f"fixed-point checkpoint covariance differs from fixed-interval off-grid marginal by {dc:.2e}")
+            ctx.dev("fp-vs-fi.mean", dm, 1e-5, case=dict(case, checkpoint=tc), sig=f"fp-vs-fi:{cfg.fact}:{cfg.solver}:{cfg.lin}:mean", what=f"fixed-point checkpoint mean differs from fixed-interval off-grid marginal by {dm:.2e}")
+            ctx.dev("fp-vs-fi.cov", dc, 1e-4, case=dict(case, checkpoint=tc), sig=f"fp-vs-fi:{cfg.fact}:{cfg.solver}:{cfg.lin}:cov", what=f"fixed-point checkpoint covariance differs from fixed-interval off-grid marginal by {dc:.2e}")
     ctx.case(dict(cfg.key(), d=d, mode="fixedpoint-vs-fixedinterval", checkpoints=len(cps)))
 
 
